@@ -40,15 +40,21 @@ def load_module(path):
 def run_worker(modrel, ob, tier, scratch, idx, canary=None):
     out = os.path.join(scratch, "r%d.json" % idx)
     cmd = [PY_VT, os.path.join(VERIF, "engine", "worker.py"), os.path.join(VERIF, modrel), ob.name, tier, out]
+    # per-obligation budget; the thorough tier is capped so that one registered command stays
+    # within hours (VERIF_MAX_BUDGET, seconds; an obligation that hits it is UNKNOWN, never success)
+    budget = ob.timeout
+    if tier == "thorough":
+        budget = min(budget, int(os.environ.get("VERIF_MAX_BUDGET", "1200")))
     if canary is not None:
         cmd += ["--canary", str(canary)]
-        cmd += ["--timeout", str(min(ob.timeout, 300))]
+        budget = min(budget, 300)
+    cmd += ["--timeout", str(budget)]
     env = dict(os.environ)
     env["PYTHONDONTWRITEBYTECODE"] = "1"
     env["PYTHONWARNINGS"] = "ignore"
     env["PRAATIO_ROOT"] = ROOT
     env.pop("CROSSHAIR_ONLY_FINITE_FLOATS", None)
-    wall = ob.timeout * 2 + 180
+    wall = budget * 2 + 180
     t0 = time.time()
     try:
         p = subprocess.run(cmd, env=env, cwd=VERIF, capture_output=True, text=True, timeout=wall)
